@@ -317,6 +317,11 @@ def r12(ctx, fx, fn):
                         "for -1): `sta -1` assembles to `85 FF` — the zero page — instead of `8D FF FF`", "%s:%s" % (fn.file, a.get("ln")))
         elif len(others) != 1:
             ctx.finding(rid, k + "|len1-guard|extra", "the one-byte candidate is guarded by conditions beyond `operand < 256` and the sign test", "%s:%s" % (fn.file, a.get("ln")))
+        ctx.inst(rid, k + "|len1-lower-bound")
+        gd = repr(lib.hdesc(a["guard"])) if a.get("guard") is not None else ""
+        if not ("-128" in gd or "('Neg', ('c', 128))" in gd or "-129" in gd):
+            ctx.finding(rid, k + "|len1-lower-bound", "a negative operand of a form that only exists with one byte (immediate, indirect) is accepted however small it is: "
+                        "`lda #-300` assembles, silently, to `A9 D4` — an out-of-range immediate is an error", "%s:%s" % (fn.file, a.get("ln")))
         ctx.inst(rid, k + "|len1-bytes")
         es = ok_ret(a)
         if es is None or [descr(e) for e in es] != [("var", opcode_name), ("cast", "u8", ("var", opn))]:
